@@ -50,7 +50,7 @@ OPS = ['def_m1', 'def_m2', 'def_m_none', 'def_m_empty', 'def_mg', 'def_special4'
        'file2_redefine', 'include_def_use', 'finalize', 'def_and_use_one_text', 'use_then_def_one_text',
        'def_gin_macro5', 'use_p_short_ref', 'use_r_uneval', 'def_m11_skip_unknown', 'def_ab_skip_list', 'def_a_prefix',
        'use_r_dictkey', 'use_r_dictkey_uneval', 'query_m', 'query_ab_value', 'file3_fails_midway', 'file3_repaired',
-       'use_q_tuple']
+       'use_q_tuple', 'use_r_two_dictkeys']
 TEXT = {
     'def_m1': 'm = 1', 'def_m2': 'm = 2', 'def_m_none': 'm = None', 'def_m_empty': "m = ''", 'def_mg': 'm = @c05.g()', 'def_special4': 'm/macro.value = 4',
     'def_gin_macro5': 'm/gin.macro.value = 5',
@@ -58,6 +58,7 @@ TEXT = {
     'use_p_uneval': 'c05.c.p = @m/macro', 'use_p_short_ref': 'c05.c.p = @m/macro()',
     'use_r_uneval': 'c05.c.r = @m/gin.macro', 'def_m11_skip_unknown': 'm = 11', 'def_ab_skip_list': 'a/b = 12', 'def_a_prefix': 'a = 77',
     'use_q_tuple': "c05.c.q = (%m, 'x', %a/b)",      # references inside a top-level TUPLE
+    'use_r_two_dictkeys': "c05.c.r = {%m: 'vm', %a/b: 'vab'}",      # two different macros as keys of one dict
     'use_r_dictkey': "c05.c.r = {%a/b: 'v'}", 'use_r_dictkey_uneval': "c05.c.r = {@m/macro: 'v'}",
     'def_and_use_one_text': 'm = 7\nc05.c.p = %m\nm = 8',
     'use_then_def_one_text': 'c05.c.r = %a/b\na/b = 9',
@@ -119,6 +120,8 @@ class World:
       self.params['r'] = ('KM', 'a/b')      # the macro is the KEY of a dict value
     elif op == 'use_r_dictkey_uneval':
       self.params['r'] = ('KU', 'm')
+    elif op == 'use_r_two_dictkeys':
+      self.params['r'] = ('KM2', ('m', 'a/b'))
     elif op == 'def_m11_skip_unknown':
       self.macros['m'] = 11
     elif op == 'def_ab_skip_list':
@@ -146,7 +149,9 @@ class World:
     out = []
     for t in self.params.values():
       for x in (t if isinstance(t, list) else [t]):
-        if isinstance(x, tuple):
+        if isinstance(x, tuple) and x[0] == 'KM2':
+          out.extend(('M', n) for n in x[1])
+        elif isinstance(x, tuple):
           out.append(({'KM': 'M', 'KU': 'U'}.get(x[0], x[0]), x[1]))
     return out
 
@@ -257,6 +262,20 @@ class World:
             ok = ok and isinstance(g, list) and i < len(g) and g[i] == x
             w.append(x)
         want[prm] = w
+      elif t[0] == 'KM2':
+        vm, vab = self.macros[t[1][0]], self.macros[t[1][1]]
+        ok = ok and isinstance(g, dict) and len(g) == 2 and sorted(g.values()) == ['vab', 'vm']
+        if ok:
+          km = [k for k, v in g.items() if v == 'vm'][0]
+          kab = [k for k, v in g.items() if v == 'vab'][0]
+          if vm is G:
+            n_g += 1
+            ok = isinstance(km, tuple) and km[0] == 'g' and km[1] > before
+          else:
+            ok = km == vm and type(km) is type(vm)
+          ok = ok and kab == vab
+        want[prm] = {'<fresh g()>' if vm is G else vm: 'vm', vab: 'vab'}
+        res.w('macro_as_dict_key')
       elif t[0] == 'KM':
         v = self.macros[t[1]]
         ok = ok and isinstance(g, dict) and list(g.values()) == ['v'] and list(g) == [v]
@@ -319,8 +338,12 @@ def m_matches(names, q):
   return [n for n in names if n.endswith('.' + q)]
 
 
+FALSY_CONSTS = [None, 0, '', False, (), 0.0]
+
+
 def const_case(names, res, pre=None):
   desc = ['const', list(names)] + ([pre] if pre else [])
+  falsy = pre == 'falsy_values'      # constants whose values are None, 0, '', ... are constants like any other
   harness.hard_reset()
   # history: interactive mode was left before (a balanced enter/exit, or a defensive exit that matches no enter):
   # definitions made afterwards are made OUTSIDE interactive mode
@@ -334,8 +357,8 @@ def const_case(names, res, pre=None):
       pass
     gin.exit_interactive_mode()
   defined = {}
-  for n in names:
-    obj = object()
+  for k, n in enumerate(names):
+    obj = FALSY_CONSTS[k % len(FALSY_CONSTS)] if falsy else object()
     would_match = m_matches(list(defined), n)
     try:
       gin.constant(n, obj)
@@ -461,6 +484,8 @@ def _const_shard(args):
   for idx, names in enumerate(const_subsets(tier)):
     if idx % n == i:
       const_case(names, res)
+      if len(names) <= 3:
+        const_case(names, res, 'falsy_values')
       if len(names) <= 2:
         for pre in ('unmatched_exit', 'enter_exit', 'block_then_unmatched_exit'):
           const_case(names, res, pre)
